@@ -152,7 +152,7 @@ def checks():
     return [
         HypCheck(
             'foreign-files', lambda: foreign.docs(), run_defect_case,
-            budget={'quick': (16, 60), 'thorough': (16, 4000)},
+            budget={'quick': (16, 150), 'thorough': (16, 4000)},
             rule='well-formed files from an independent spec-derived '
                  'generator (shuffled options, omitted optional options, '
                  'blank lines, CRLF header lines, compact/2-space/unsorted/'
